@@ -46,7 +46,8 @@ class PEntailment(Inference):
 
         # falsified query: (not B|A)
         falsified_query = Conditional(Not(query.consequence), query.antecedence, None)
-        conditionals[0] = falsified_query
+        # a key that no conditional of the base uses (0 may be a regular key)
+        conditionals[max(conditionals, default=0) + 1] = falsified_query
         extended_bb = BeliefBase(
             belief_base.signature, conditionals, f"{belief_base.name}_queried"
         )
